@@ -156,8 +156,14 @@ func blockingUnsupported(u []string) []string {
 	return out
 }
 
+// scratchDir is removed on every exit path, also the ones that give up (exit 2).
+var scratchDir string
+
 func die(code int, a ...any) {
 	fmt.Fprintln(os.Stderr, append([]any{"check:"}, a...)...)
+	if scratchDir != "" {
+		os.RemoveAll(scratchDir)
+	}
 	os.Exit(code)
 }
 
@@ -248,6 +254,7 @@ func main() {
 		die(2, err)
 	}
 	if !*keep {
+		scratchDir = scratch
 		defer os.RemoveAll(scratch)
 	}
 	exit := func(code int) {
